@@ -32,6 +32,9 @@ impl Peers {
         &self.by_name.get(name).expect("known peer").0
     }
     pub fn name_of(&self, id: &str) -> String {
+        if id.is_empty() {
+            return String::new();
+        }
         match self.by_id.get(id) {
             Some(n) => n.clone(),
             None => format!("?{id}"),
